@@ -11,7 +11,7 @@
     [process] uses them is transcribed: [(resampler_out * fade_volume * volume).panned(CENTER)]. *)
 From Coq Require Import ZArith List Bool.
 From KV Require Import Base.Outcome Base.Num C19.Model C06.Model.
-From KV Require Import C04.Transport C04.Resampler C04.StaticData.
+From KV Require Import C04.Transport C04.TransportSeek C04.Resampler C04.StaticData.
 Import ListNotations.
 Local Open Scope Z_scope.
 
@@ -25,7 +25,7 @@ Section Sound.
   Variable cast : T -> F.                           (* [as f32] *)
   Variable ascale : A -> F -> A.                    (* Frame * f32 *)
   Variable fone : F.                                (* Decibels(0.0).as_amplitude() = 1.0 *)
-  Variable fuel : nat.                              (* bound on the iterations of any one loop *)
+  Variable fuel : nat.                              (* bound on the iterations of any one loop (the seek has none) *)
 
   (** [f64::abs] *)
   Definition nabs (x : T) : T := if nsignneg x then nneg x else x.
@@ -94,7 +94,7 @@ Section Sound.
   (** [StaticSound::seek_to_index] *)
   Definition seek_to_index (s : ssound) (index : Z) : outcome ssound :=
     let n := num_frames (s_src s) (s_slice s) in
-    let! t := transport_seek_to fuel (s_tr s) index n in
+    let! t := transport_seek_to (s_tr s) index n in
     let s := set_tr s t in
     if is_advancing s then push_frame_to_resampler s else Ok s.
 
